@@ -369,7 +369,7 @@ def run_cases(R, inputs, catd, rng, ndb, tag, findings, plan_fn=None, extra_chec
         idx = write_shard(name, preps[k:k + shard], N)
         names.append((k, name, idx))
     res = compile_many([nm for _, nm, _ in names], timeout=600)
-    broken, fails, disputed = [], [], []
+    broken, fails, disputed, outside = [], [], [], []
     for (k, name, idx), (rc, out) in zip(names, res):
         if rc != 0:
             broken.append(BrokenTie(f'{name} does not compile', out[-1500:]))
@@ -389,6 +389,7 @@ def run_cases(R, inputs, catd, rng, ndb, tag, findings, plan_fn=None, extra_chec
                 stats['reference_outside_evaluator'] += 1
             elif code == 3:
                 stats['plan_outside_evaluator'] += 1
+                outside.append((p, j))
             else:
                 stats['judged'] += 1
                 stats['order_checked'] += ordered
@@ -398,6 +399,7 @@ def run_cases(R, inputs, catd, rng, ndb, tag, findings, plan_fn=None, extra_chec
                 else:
                     stats['mismatch'] += 1
                     fails.append((p, j))
+    R.plan_outside = outside
     return stats, fails, broken, skipped, disputed, preps
 
 
